@@ -14,6 +14,8 @@ pub type BoxError = Box<dyn std::error::Error + Send + Sync>;
 pub enum Op {
     Write(Vec<u8>),
     WriteAll(Vec<u8>),
+    /// std::io::Write::write_vectored with these slices (the std default: one write of the first non-empty slice)
+    WriteV(Vec<Vec<u8>>),
     Flush,
     Abort,
     DropWriter,
@@ -131,6 +133,16 @@ pub fn run(case: &StreamCase) -> StreamOutcome {
                     },
                     None => Val::L(vec![Val::N(1)]),
                 },
+                Op::WriteV(ds) => match writer.as_mut() {
+                    Some(w) => {
+                        let slices: Vec<std::io::IoSlice<'_>> = ds.iter().map(|d| std::io::IoSlice::new(d)).collect();
+                        match w.write_vectored(&slices) {
+                            Ok(n) => Val::L(vec![Val::N(0), Val::N(n as u64)]),
+                            Err(_) => Val::L(vec![Val::N(1)]),
+                        }
+                    }
+                    None => Val::L(vec![Val::N(1)]),
+                },
                 Op::WriteAll(d) => match writer.as_mut() {
                     Some(w) => match w.write_all(d) {
                         Ok(()) => Val::L(vec![Val::N(2)]),
@@ -223,6 +235,7 @@ fn op_val(o: &Op) -> Val {
         Op::Poll(w) => Val::L(vec![Val::N(5), Val::N(*w)]),
         Op::DropReader => Val::L(vec![Val::N(6)]),
         Op::Drain(w) => Val::L(vec![Val::N(7), Val::N(*w)]),
+        Op::WriteV(ds) => Val::L(vec![Val::N(8), Val::L(ds.iter().map(|d| Val::bytes(d)).collect())]),
     }
 }
 
@@ -255,6 +268,7 @@ pub fn case_of_input(v: &Val) -> Option<StreamCase> {
             5 => Op::Poll(o[1].as_n()?),
             6 => Op::DropReader,
             7 => Op::Drain(o[1].as_n()?),
+            8 => Op::WriteV(o[1].as_list()?.iter().map(|d| d.as_b().cloned()).collect::<Option<Vec<_>>>()?),
             _ => return None,
         });
     }
